@@ -8,6 +8,7 @@ use ast_grep_config::RuleConfig;
 use codespan_reporting::files::SimpleFile;
 
 use std::borrow::Cow;
+use std::collections::HashMap;
 use std::ops::Range;
 use std::path::{Path, PathBuf};
 
@@ -15,6 +16,9 @@ pub struct InteractivePrinter<P: Printer> {
   accept_all: bool,
   from_stdin: bool,
   committed_cnt: usize,
+  /// The edits accepted so far, per file. A file with embedded languages arrives as one
+  /// payload per document, and every payload is computed against the same original content.
+  accepted: HashMap<PathBuf, Vec<InteractiveDiff<()>>>,
   inner: P,
 }
 
@@ -28,6 +32,7 @@ impl<P: Printer> InteractivePrinter<P> {
         from_stdin,
         inner,
         committed_cnt: 0,
+        accepted: HashMap::new(),
       })
     }
   }
@@ -48,11 +53,26 @@ impl<P: Printer> InteractivePrinter<P> {
     utils::prompt(VIEW_PROMPT, "qe", Some('\n')).expect("cannot fail")
   }
 
-  fn rewrite_action(&self, diffs: Diffs<()>, path: &PathBuf) -> Result<()> {
+  fn rewrite_action(&mut self, diffs: Diffs<()>, path: &PathBuf) -> Result<()> {
     if diffs.contents.is_empty() {
       return Ok(());
     }
-    let new_content = apply_rewrite(diffs);
+    // an earlier payload of the same file was written from the same original content:
+    // its edits are written again together with the new ones, or this write would undo them
+    let accepted = self.accepted.entry(path.clone()).or_default();
+    accepted.extend(diffs.contents);
+    accepted.sort_by_key(|d| d.range.start);
+    let mut contents = vec![];
+    let mut end = 0;
+    for diff in accepted.iter() {
+      // edits of different documents of one file can overlap (host and embedded region)
+      if diff.range.start < end {
+        continue;
+      }
+      end = diff.range.end;
+      contents.push(diff.clone());
+    }
+    let new_content = apply_rewrite(Diffs { contents, ..diffs });
     if self.from_stdin {
       println!("{new_content}");
       Ok(())
@@ -123,6 +143,7 @@ where
   }
 }
 
+#[derive(Clone)]
 pub struct InteractiveDiff<D> {
   /// string content for the replacement
   replacement: String,
